@@ -159,7 +159,10 @@ def rule_r2(prog, res) -> None:
                 except Unknown as err:
                     raise AnalysisError(f"C17.R2: cannot interpret {m.short} for an {idx_kind} index ({err})")
                 site = res.site(m, f"index kind {idx_kind}")
-                if bad:
+                if bad and bad[2] == -1:
+                    node, attr, _, _ = bad
+                    res.violation("C17.R2", m, node, f"the selection hands the wrong array to the constructor ({attr}): the sub-container mixes data of the two catalogs", key_extra=f"field-forwarding-{attr.split()[0]}")
+                elif bad:
                     node, attr, got, want = bad
                     res.violation(
                         "C17.R2",
@@ -215,6 +218,10 @@ def _interp_indexer(prog, ci, m: FuncInfo, item: str, idx_kind: str, inv: dict):
                 r = rank_expr(a)
                 if r is not None and r != inv[f"<param>{pos[i]}"]:
                     problem.append((a, pos[i], r, inv[f"<param>{pos[i]}"]))
+                # same-named forwarding: parameter p of the constructor receives a selection of self.p
+                attrs = {x.attr for x in ast.walk(a) if isinstance(x, ast.Attribute) and isinstance(x.value, ast.Name) and x.value.id == "self"}
+                if attrs and pos[i] not in attrs and pos[i] in inv:
+                    problem.append((a, f"{pos[i]} <- self.{sorted(attrs)[0]}", -1, -1))
         for k in call.keywords:
             if k.arg and f"<param>{k.arg}" in inv:
                 r = rank_expr(k.value)
@@ -314,6 +321,18 @@ def rule_r3(prog, res) -> None:
         k += 1
         res.touch(m)
         cfg = cfg_of(m.node)
+        # nested checks must forward `require`, otherwise their False result is returned instead of an exception
+        nested = [c for c in calls_in(m) if isinstance(c.func, ast.Attribute) and c.func.attr == "is_compatible"]
+        lost = [c for c in nested if not (kwarg(c, "require") is not None and unparse(kwarg(c, "require")) in ("require", "True"))]
+        if lost:
+            res.violation(
+                "C17.R3",
+                m,
+                lost[0],
+                f"{ci.name}.is_compatible calls {unparse(lost[0].func)} without forwarding require=: with require=True an incompatibility is reported by returning False, which callers that rely on the exception ignore",
+                key_extra="require-not-forwarded",
+            )
+            continue
         # a forwarded is_compatible(..., require=require) call raises instead of returning False (checked on its own)
         reach = pruned_reach(cfg, cfg.entry, {"require": True, "is_compatible()": True})
         bad = [nd for nd in cfg.nodes if nd.id in reach and nd.kind == "stmt" and isinstance(nd.ast, ast.Return) and isinstance(nd.ast.value, ast.Constant) and nd.ast.value.value is False]
